@@ -353,7 +353,7 @@ func runWorker(cfg *config, job *Job, from, to, stride uint64, deadline time.Tim
 			var st map[string]uint64
 			if json.Unmarshal([]byte(line[6:]), &st) == nil {
 				mu.Lock()
-				for _, k := range []string{"yield_sites", "package_vars", "site_pairs_this_process"} {
+				for _, k := range []string{"yield_sites", "package_vars", "site_pairs_this_process", "go_statements_in_tree"} {
 					if st[k] > jr.stats[k] {
 						jr.stats[k] = st[k]
 					}
